@@ -219,7 +219,9 @@ class Spec(object):
         self.violation_error = attach_contract(stacking) if contract else None
 
     def key(self, div):
-        if "class_invariant_broken" in str(div.get("observed")):
+        exc = div.get("exc")
+        if (self.violation_error is not None and isinstance(exc, self.violation_error)) or \
+                "class_invariant_broken" in str(div.get("observed")):
             return "remotestack/%s/class-invariant" % div["op"][0]
         return None
 
